@@ -92,6 +92,33 @@ let gen_history (idx : int) (prof : cprofile) (oc : out_channel) =
             | CtAwaitPingresp -> gw Pingresp
             | _ -> adv_safe (pick [500; 1999; 2001; 3000]))
          | CxBrokerPub2 (mid, _) -> gw (if rnd 6 = 0 then Pubrec mid else Pubrel mid)) in
+  (* a broker message on a topic some installed handler matches *)
+  let deliver () =
+    match !s.cl_handlers with
+    | [] -> ()
+    | hs ->
+      let (_, (route, _)) = pick hs in
+      let name = List.map (fun l -> if l = [nn 43] then bs "x" else if l = [nn 35] then bs "y/z" else l) route in
+      let topic = join name in
+      let qos = pickw [ (3, 0); (3, 1); (4, 2) ] in
+      let mid = 1 + rnd 6 in
+      let (tit, tid) =
+        if is_short_topic topic then (2, int_of_n (encode_short topic))
+        else (match List.find_opt (fun (nm, _) -> nm = topic) !s.cl_registered with
+            | Some (_, i) -> (0, int_of_n i)
+            | None ->
+              (match get_id cfg.k_predef cfg.k_cid topic with
+               | Some i -> (1, int_of_n i)
+               | None ->
+                 (* not known to the client yet: the gateway registers it first *)
+                 let t = fresh_tid () in
+                 gw (Register (nn t, nn (100 + rnd 50), topic)); (0, t))) in
+      gw (Publish (rnd 8 = 0, nn qos, coin (), nn tit, nn tid, nn mid, payload ()));
+      if qos = 2 && rnd 5 > 0 then begin
+        if rnd 4 = 0 then gw (Publish (true, nn qos, coin (), nn tit, nn tid, nn mid, payload ()));
+        gw (Pubrel (nn mid));
+        if rnd 4 = 0 then gw (Pubrel (nn mid))
+      end in
   let unsolicited () =
     match rnd 12 with
     | 0 | 1 -> gw (Register (nn (fresh_tid ()), nn (1 + rnd 9), bs (pick names)))
@@ -138,8 +165,9 @@ let gen_history (idx : int) (prof : cprofile) (oc : out_channel) =
   while !k < len && not !s.cl_exited do
     if rnd 3 > 0 then adv_safe (pickw [ (5, 1 + rnd 40); (2, 101 + rnd 300); (1, 7 + 100 * rnd 9) ]);
     if not !s.cl_exited && !s.cl_cancelled = None then begin
-      (match pickw [ (30, `Api); (40, `Answer); (prof.c_unsolicited, `Unsol); (8, `Adv); (6, `Edge) ] with
+      (match pickw [ (30, `Api); (40, `Answer); (prof.c_unsolicited, `Unsol); (8, `Adv); (6, `Edge); (14, `Deliver) ] with
        | `Api -> api_call ()
+       | `Deliver -> deliver ()
        | `Answer -> answer true
        | `Unsol -> unsolicited ()
        | `Adv -> adv_safe (pick [rdelay - 1; rdelay + 1; 2 * rdelay + 3; ctimeout + 1; 50])
